@@ -115,6 +115,7 @@ pub struct HuffMachine<B: Sym> {
 
 const OP_MERGE: u32 = 5000;
 const OP_CLEAR: u32 = 5001;
+const OP_MERGE2: u32 = 5004; // merge_regions([self, a raw region holding each profile symbol once])
 const OP_UNKNOWN: u32 = 5002; // push an item with an out-of-statistics symbol
 const OP_UNKNOWN2: u32 = 5003; // known symbol followed by an unknown one
 const WRAPPED_RAW: u32 = 1000; // + item: push as Wrapped taken from a raw container
@@ -162,12 +163,22 @@ impl<B: Sym> HuffMachine<B> {
     /// Builds a coded container for `counts`, measures the code lengths through the API and
     /// checks them against the reference optimum.
     fn build(counts: BTreeMap<B, u64>, generation: usize) -> Result<Gen<B>, String> {
-        let src = Self::source_from(&counts);
-        let c = guard(|| HuffmanContainer::merge_regions(std::iter::once(&src))).map_err(|p| {
+        // the statistics are spread over two source regions with overlapping alphabets: the code must
+        // be built from the *summed* counts
+        let (mut ca, mut cb) = (BTreeMap::new(), BTreeMap::new());
+        for (s, n) in &counts {
+            ca.insert(*s, n - n / 2);
+            if n / 2 > 0 {
+                cb.insert(*s, n / 2);
+            }
+        }
+        let (src_a, src_b) = (Self::source_from(&ca), Self::source_from(&cb));
+        let c = guard(|| HuffmanContainer::merge_regions([&src_a, &src_b].into_iter())).map_err(|p| {
             format!("merge_regions panicked for statistics {}: {p}", show_counts(&counts))
         })?;
         // measure lengths on a scratch twin
-        let mut scratch = guard(|| HuffmanContainer::merge_regions(std::iter::once(&src))).map_err(|p| format!("merge_regions panicked: {p}"))?;
+        let mut scratch =
+            guard(|| HuffmanContainer::merge_regions([&src_a, &src_b].into_iter())).map_err(|p| format!("merge_regions panicked: {p}"))?;
         let mut lens = BTreeMap::new();
         let mut pos = 0usize;
         for s in counts.keys() {
@@ -431,12 +442,14 @@ impl<B: Sym> Machine for HuffMachine<B> {
         v.push(OP_CLEAR);
         if self.merges < self.max_merges {
             v.push(OP_MERGE);
+            v.push(OP_MERGE2);
         }
         v
     }
     fn describe(&self, op: OpId) -> String {
         match op {
             OP_MERGE => "replace by merge_regions([self]) (next generation)".into(),
+            OP_MERGE2 => "replace by merge_regions([self, raw region holding every profile symbol once])".into(),
             OP_CLEAR => "clear()".into(),
             OP_UNKNOWN => format!("push([{:?}]) (symbol outside the statistics)", self.unknown_symbol()),
             OP_UNKNOWN2 => "push([known, unknown])".into(),
@@ -455,12 +468,26 @@ impl<B: Sym> Machine for HuffMachine<B> {
     fn step(&mut self, op: OpId) -> Step {
         let what = self.describe(op);
         let r = match op {
-            OP_MERGE => {
-                let counts = self.g.pushed.clone();
+            OP_MERGE | OP_MERGE2 => {
+                let mut counts = self.g.pushed.clone();
                 self.merges += 1;
                 // the real merge from the live container, plus the measured twin for the lengths
                 let live = &self.g.c;
-                let merged = guard(|| HuffmanContainer::merge_regions(std::iter::once(live)));
+                let mut extra = HuffmanContainer::<B>::default();
+                if op == OP_MERGE2 {
+                    for (s, _) in &self.profile.counts {
+                        let b = B::from_u16(*s);
+                        let _ = extra.push(vec![b]);
+                        *counts.entry(b).or_insert(0) += 1;
+                    }
+                }
+                let merged = guard(|| {
+                    if op == OP_MERGE2 {
+                        HuffmanContainer::merge_regions([live, &extra].into_iter())
+                    } else {
+                        HuffmanContainer::merge_regions(std::iter::once(live))
+                    }
+                });
                 match (merged, Self::build(counts, self.g.generation + 1)) {
                     (Ok(m), Ok(mut g)) => {
                         g.c = m;
